@@ -482,6 +482,7 @@ func checkC10(c *Ctx) {
 	})
 	c10Lookalike(c)
 	c10Split(c)
+	c10PackageLine(c)
 	c.Set("rule", "case = one of nine declarations (var with calls, func with remote parameter types, struct type, func with nested block and a local helper, generics, literal keys, assignments, local type alias and variable named like import names) decorated with gotypes or goast and moved from a file importing three libraries (two with one package name) plainly / aliased / dot-imported into a target file of the same or another package that imports them absent / plain / aliased / dot, in one or two hops; all non-trivial; distinct by configuration")
 }
 
